@@ -13,9 +13,9 @@ LEVEL = 'model_checking'
 RULE = ('every ordered selection of <= K of the binding operations {X = f(Y), Y = a, X = Y, Y = g(Z), Z = b} with one '
         'assertz of p(X) / p(f(Y)) / p(_) / p(g(X,Y)) / p(g(Y,Y)) (one variable twice) inserted at every position (variables bound before, after, through '
         'a chain, inside a structure), the asserting clause continuing with true / a use p(W) of the fact / fail, run '
-        'to exhaustion or abandoned after its first answer; followed by every later use, alone and followed by each of 3 probing uses, from {p(a), '
+        'to exhaustion or abandoned after its first answer; followed by every later use alone, and by every pair (one of 4 uses, then one of 4 probing uses), from {p(a), '
         'p(b), p(f(b)), p(g(a,b)), p(g(a,a)), one clause using the fact twice (p(A),p(B),A=a,B=b), two simultaneously suspended '
-        'enumerations p(A) and p(B) bound differently}; through compiled clauses and through the Python API (nested '
+        'enumerations p(A) and p(B) bound differently, two simultaneously suspended ground uses such as p(g(a,a)) and p(g(b,b))}; through compiled clauses and through the Python API (nested '
         'unify generators + assert_fact). Every step is executed on the real engine and on the reference model (copy at '
         'assert, fresh variables per use) and the observations compared. states = distinct observation traces; '
         'transitions = engine operations; non-trivial = the stored fact contains a variable or a structure')
@@ -26,7 +26,7 @@ a, b = A('a'), A('b')
 OPS = [(X, F('f', Y)), (Y, a), (X, Y), (Y, F('g', Z)), (Z, b)]
 ASSERTS = [F('p', X), F('p', F('f', Y)), F('p', ('v', ('_', 1))), F('p', F('g', X, Y)), F('p', F('g', Y, Y))]
 CONTS = ['true', 'use', 'fail']
-USES = ['pa', 'pb', 'pfb', 'pgab', 'pgaa', 'twice', 'double']
+USES = ['pa', 'pb', 'pfb', 'pgab', 'pgaa', 'twice', 'double', 'gdouble']
 UCLAUSE = (F('u', V('A'), V('B')), conj(call(F('p', V('A'))), call(F('p', V('B'))), call(F('=', V('A'), a)), call(F('=', V('B'), b))))
 
 
@@ -53,7 +53,7 @@ def use_sequences():
     out += [(u,) for u in USES]
     # every use followed by each of three "probing" uses (a ground call, the clause using the fact
     # twice, two suspended enumerations)
-    out += [(u1, u2) for u1 in USES for u2 in ('pa', 'twice', 'double')]
+    out += [(u1, u2) for u1 in ('pa', 'pfb', 'twice', 'double') for u2 in ('pa', 'twice', 'double', 'gdouble')]
     return out
 
 
@@ -85,6 +85,23 @@ def do_use(w, use, is_ref):
         while w.step(h) and len(rows) < 30:
             rows.append(w.observe([qa, qb], h))
         return ('rows', tuple(rows))
+    if use == 'gdouble':
+        # two simultaneously suspended GROUND uses that need different bindings of the fact's variables
+        obs = []
+        for g1, g2 in ((F('p', F('g', a, a)), F('p', F('g', b, b))), (F('p', a), F('p', b)), (F('p', F('f', a)), F('p', F('f', b)))):
+            h1 = w.start(g1)
+            n1 = 1 if w.step(h1) else 0
+            h2 = w.start(g2, under=h1 if n1 else None)
+            n2 = 0
+            while w.step(h2) and n2 < 30:
+                n2 += 1
+            w.close(h2)
+            n1b = 0
+            while w.step(h1) and n1b < 30:
+                n1b += 1
+            w.close(h1)
+            obs.append((n1, n2, n1b))
+        return ('gdouble', tuple(obs))
     if use == 'double':
         # two simultaneously suspended enumerations of the same facts, bound differently
         obs = []
